@@ -20,6 +20,7 @@ GEN = {
     "GenEndpoint": {"tla": "GenEndpoint.tla", "cfg": "GenEndpoint.cfg"},
     "GenEndpointSim": {"tla": "GenEndpoint.tla", "cfg": "GenEndpoint_sim.cfg", "simulate_quick": "num=12", "depth": 50,
                        "simulate_thorough": "num=150"},
+    "GenEndpoint3": {"tla": "GenEndpoint.tla", "cfg": "GenEndpoint3.cfg"},
     "GenAlphabet": {"tla": "GenEndpoint.tla", "cfg": "GenAlphabet.cfg"},
     "GenDecode": {"tla": "GenDecode.tla", "cfg": "GenDecode.cfg"},
     "GenDecodeFull": {"tla": "GenDecode.tla", "cfg": "GenDecode_full.cfg"},
@@ -54,7 +55,7 @@ P("C06", "model_checking",
   models=["MC_Codec"], families=["requests"])
 P("C07", "model_checking",
   "non-trivial = a control response encoder call that returned Ok; distinct = distinct (encoder, arguments, stored EID)",
-  models=["MC_Codec"], families=["responses"])
+  models=["MC_Codec"], families=["forge", "responses"])
 P("C08", "model_checking",
   "non-trivial = a vendor_defined / generate_{pci,iana,spdm}_msg_packet_bytes call; distinct = distinct arguments",
   models=["MC_Codec"], families=["vendor", "lengths"])
@@ -66,19 +67,19 @@ P("C10", "exploration",
   models=["MC_Decode", "MC_Endpoint"], gen_quick=["GenDecode"], gen_thorough=["GenDecodeFull"], families=["bus", "robust", "mutate", "corrupt"])
 P("C11", "model_checking",
   "non-trivial = a process_packet call where both decode_packet and process_packet returned; distinct = distinct (context, bytes, buffer size)",
-  models=["MC_Endpoint"], gen=["GenEndpoint", "GenEndpointSim"], families=["bus", "forge", "robust", "corrupt"])
+  models=["MC_Endpoint"], gen=["GenEndpoint", "GenEndpoint3", "GenEndpointSim"], families=["bus", "forge", "robust", "corrupt"])
 P("C12", "model_checking",
   "non-trivial = process_packet on an accepted control request in C12's domain (answerable command, source address = source EID < 0x80, D = 0); distinct = distinct (context, request bytes)",
-  models=["MC_Endpoint", "MC_Link"], gen=["GenEndpoint", "GenEndpointSim"], families=["bus", "forge", "vendor_enum", "identity", "history"])
+  models=["MC_Endpoint", "MC_Link"], gen=["GenEndpoint", "GenEndpoint3", "GenEndpointSim"], families=["bus", "forge", "vendor_enum", "identity", "history"])
 P("C13", "model_checking",
   "non-trivial = a processed Set/Get Endpoint ID packet (accepted, rejected or corrupted) or a direct accessor call; every event with a context is an evaluation of 'nothing else changes it'; distinct = distinct (context, input)",
-  models=["MC_Endpoint", "MC_Link"], gen=["GenAlphabet", "GenEndpoint", "GenEndpointSim"], families=["bus", "tour", "history", "forge", "corrupt"])
+  models=["MC_Endpoint", "MC_Link"], gen=["GenAlphabet", "GenEndpoint", "GenEndpoint3", "GenEndpointSim"], families=["bus", "tour", "history", "forge", "corrupt"])
 P("C14", "model_checking",
   "non-trivial = process_packet on an accepted Get Vendor Defined Message Support request with selector < n; distinct = distinct (configuration, request)",
-  models=["MC_Endpoint", "MC_Link"], gen=["GenEndpoint", "GenEndpointSim"], families=["bus", "vendor_enum", "forge"])
+  models=["MC_Endpoint", "MC_Link"], gen=["GenEndpoint", "GenEndpoint3", "GenEndpointSim"], families=["bus", "vendor_enum", "forge"])
 P("C15", "model_checking",
   "non-trivial = process_packet on an accepted Get UUID / Get Version / Get Message Type Support request; distinct = distinct (configuration, UUID history, request)",
-  models=["MC_Endpoint", "MC_Link"], gen=["GenEndpoint", "GenEndpointSim"], families=["bus", "identity", "forge"])
+  models=["MC_Endpoint", "MC_Link"], gen=["GenEndpoint", "GenEndpoint3", "GenEndpointSim"], families=["bus", "identity", "forge"])
 P("C16", "model_checking",
   "every encoder call is an evaluation (refusal table, exact write extent via poisoned buffers, independence from capacity/poison via repeated calls); distinct = distinct (arguments, capacity, poison)",
   models=["MC_Codec"], families=["requests", "responses", "vendor", "lengths"])
